@@ -116,6 +116,14 @@ func checkC18(c *Ctx, r *Report) {
 	r.NotDecided = append(r.NotDecided, "that a range lies inside the file and inside the comment/declaration it concerns, that start <= end, and that the covered text equals the annotation value (first-occurrence search by strings.Index)", "that code and severity are those documented for each rule (C10 checks the severity tables)", "multibyte column arithmetic")
 
 	// ---- C18.a nothing reported twice
+	// a source file is walked once: the files matched by the globs are a set (overlapping globs
+	// name a file twice; walking it twice attaches its receivers twice and doubles every
+	// diagnostic about them)
+	if fi, matched := findMatchedSet(w); fi != nil && matched != nil {
+		checkGlobSources(c, r, "C18.a", fi, matched)
+	} else {
+		r.add("C18.a", "guardedby", "packages-facade:only-glob-matched-files-are-sources", "the glob-matched files are kept as a set and each is a source once", nil, nil, "the glob-matched set (a map keyed by absolute path) was not found in initWithGlobs")
+	}
 	const lv = "(core/validators.AnnotationLinkValidator).Validate"
 	if fi := need(c, r, "C18.a", lv); fi != nil {
 		viol := ""
